@@ -15,6 +15,6 @@ def suites(tier):
     q = tier == "quick"
     jobs = []
     for cfg in product(file=[0, 1], dir=[0, 1], hidden=[0, 1], skip=[0, 1]):
-        cfg.update(follow=0, nmax=4 if q else 5)
+        cfg.update(follow=0, nmax=4 if q else 6)
         jobs.append(dict(id=jid("walk", cfg), func="zzH_C19_walkfn", cfg=cfg))
     return [src_suite("src", jobs)]
